@@ -55,6 +55,17 @@ func Core() Spec {
 		fix(Cancel(C, B2, "2.000001")),        // more than held
 		fix(Send(B, C, B1, "-1", "0")),        // negative
 		fix(Send(B, B, B1, "1", "0.5")),       // self send
+		// values just outside what the stateless validation admits
+		fix(Send(B, C, B1, "0", "0")),  // nothing to send
+		fix(Send(B, C, B1, "0", "-1")), // negative retired leg
+		fix(Retire(B, B1, "0")),        // zero
+		fix(Retire(B, B1, "-1")),       // negative
+		fix(Cancel(B, B1, "0")),        // zero
+		fix(Cancel(B, B1, "-0.5")),     // negative
+		MintFresh(A, B1, B, "-1", "0"), // negative issuance
+		MintFresh(A, B1, B, "1", "-0.5"),
+		fix(CreateBatch(A, "C01-001", date(2022, 1, 1), date(2023, 1, 1), true, nil, Iss(B, "-2", "0"))),
+		fix(CreateBatch(A, "C01-001", date(2023, 1, 1), date(2022, 1, 1), true, nil, Iss(B, "2", "0"))), // end before start
 	}
 	good := []E{
 		fix(CreateBatch(A, "C01-001", date(2022, 1, 1), date(2023, 1, 1), true, nil, Iss(B, "2", "1.5"), Iss(B, "0.000001", "0"), Iss(D, "0", "0"))),
@@ -84,6 +95,9 @@ func Core() Spec {
 		fix(RetireN(B, Cr(B1, "1"), Cr(B1, "0.5"))),
 		fix(CancelN(C, Cr(B1, "0.5"), Cr(B2, "0.5"))),
 		MintN(A, B1, Iss(B, "1", "0.5"), Iss(B, "0.25", "0"), Iss(C, "0", "1")),
+		// a batch opened with nothing but a zero issuance (the usual way to prepare a batch for later minting)
+		fix(CreateBatch(A, "C01-001", date(2023, 1, 1), date(2024, 1, 1), true, nil, Iss(D, "0", "0"))),
+		fix(CreateBatch(A, "C01-001", date(2024, 1, 1), date(2025, 1, 1), true, nil, Iss(D, "0", ""), Iss(C, "", "0"))),
 	}
 	return Spec{Name: "core", Seeds: []explore.Seed{PreparedSeed("prepared"), FreshCoreSeed()},
 		Events: append(good, bad...), DepthQuick: 5, DepthThor: 6, ExpectFail: expectFail(names(bad...)...), MinStates: 500}
@@ -179,6 +193,17 @@ func Market() Spec {
 		Buy(D, "B0+B1-bid-in-first-denom", BuySpec{Seller: B, K: 0, Qty: "0.5", DAR: true, MaxFee: I64(100)}, BuySpec{Seller: B, K: 1, Qty: "0.5", BidDen: "uregen", BidAdj: 100, MaxFee: I64(100)}),
 		Buy(D, "dar-not-allowed", BuySpec{Seller: B, K: 1, Qty: "0.5", DAR: true}),
 		fix(GovFeeParams(D, "0.01", "0.01")), // not the authority
+		// values just outside what the stateless validation admits (the handlers rely on it)
+		fix(Sell(B, B1, "1", ur(0), true, nil)),                                             // zero ask
+		fix(Sell(B, B1, "1", sdk.Coin{Denom: "uregen", Amount: sdk.NewInt(-3)}, true, nil)), // negative ask
+		fix(Sell(B, B1, "0", ur(3), true, nil)),                                             // zero quantity
+		fix(Sell(B, B1, "-1", ur(3), true, nil)),                                            // negative quantity
+		UpdateOrder(B, B, 0, "", pcoin("uregen", 0), true, nil),                             // re-priced to zero
+		UpdateOrder(B, B, 0, "", &sdk.Coin{Denom: "uregen", Amount: sdk.NewInt(-1)}, true, nil),
+		UpdateOrder(B, B, 0, "0", nil, true, nil),    // quantity zero
+		UpdateOrder(B, B, 0, "-0.5", nil, true, nil), // negative quantity
+		Buy(D, "zero-qty", BuySpec{Seller: B, K: 0, Qty: "0", DAR: true, MaxFee: I64(100)}),
+		Buy(D, "negative-qty", BuySpec{Seller: B, K: 0, Qty: "-0.5", DAR: true, MaxFee: I64(100)}),
 	}
 	good := []E{
 		fix(Sell(B, B1, "1.5", ur(3), true, nil)),
